@@ -54,15 +54,24 @@ pub(crate) fn open<Fd: AsFd, P: AsRef<Path>>(
         ..Default::default()
     };
 
-    syscalls::openat2(&root, path.as_ref(), &how)
-        .map(File::from)
-        .map_err(|err| {
-            ErrorImpl::RawOsError {
-                operation: "openat2 one-shot open".into(),
-                source: err,
-            }
-            .into()
-        })
+    // Like resolve(), retry if openat2(2) fails with -EAGAIN because of a
+    // racing rename or mount somewhere on the system.
+    for _ in 0..16 {
+        match syscalls::openat2(&root, path.as_ref(), &how) {
+            Ok(file) => return Ok(file.into()),
+            Err(err) => match err.root_cause().raw_os_error() {
+                Some(libc::EAGAIN) => continue,
+                _ => Err(ErrorImpl::RawOsError {
+                    operation: "openat2 one-shot open".into(),
+                    source: err,
+                })?,
+            },
+        }
+    }
+
+    Err(ErrorImpl::SafetyViolation {
+        description: "racing filesystem changes caused openat2 to abort".into(),
+    })?
 }
 
 /// Resolve `path` within `root` through `openat2(2)`.
